@@ -802,6 +802,39 @@ fn run_txouts(inp: &[u8], brk: i64) -> String {
                 write!(s, " x_intoiter_eq={} x_hint_ok={} x_iter_ended={} x_into_len0={}", (into_toks == iter_toks) as u8, hint_ok as u8, ended as u8, len0).unwrap();
                 let (_, allocs) = count_allocs(|| { let mut n = 0u64; for o in x.iter() { n ^= o.value() ^ o.script_pubkey().len() as u64; } n });
                 write!(s, " x_alloc_iter={}", allocs).unwrap();
+                // the provided Iterator methods an implementation may specialise (nth, count, last, fold): every way of
+                // advancing must leave the same remaining length and yield the same items as repeated next()
+                let adapt = guard("panic".to_string(), || {
+                    let n = iter_toks.len();
+                    let item = |o: &bsl::TxOut| txout_fields(inp, o);
+                    let want = |i: usize| iter_toks.get(i).map(|t| t.rsplit_once(',').unwrap().0.to_string());
+                    let mut js = vec![0usize, 1, n / 2, n.saturating_sub(1), n];
+                    js.retain(|j| *j <= n);
+                    js.dedup();
+                    for &j in &js {
+                        let rest = n - j;
+                        for k in [0usize, 1, 2, rest.saturating_sub(1), rest, rest + 1, rest + 5] {
+                            let mut it = x.iter();
+                            for _ in 0..j { it.next(); }
+                            let got = it.nth(k).map(|o| item(&o));
+                            let left = n.saturating_sub(j + k + 1);
+                            if got != want(j + k) { return format!("nth:{}:{}:item", j, k); }
+                            if it.len() != left || it.size_hint() != (left, Some(left)) { return format!("nth:{}:{}:len{}", j, k, it.len()); }
+                            let nx = it.next().map(|o| item(&o));
+                            if nx != want(j + k + 1) { return format!("nth:{}:{}:next", j, k); }
+                        }
+                        let mk = || { let mut it = x.iter(); for _ in 0..j { it.next(); } it };
+                        if mk().count() != rest { return format!("count:{}", j); }
+                        if mk().last().map(|o| item(&o)) != (if rest > 0 { want(n - 1) } else { None }) { return format!("last:{}", j); }
+                        if mk().fold(0usize, |a, _| a + 1) != rest { return format!("fold:{}", j); }
+                        let mut sk = mk().skip(1);
+                        if sk.next().map(|o| item(&o)) != want(j + 1) { return format!("skip:{}", j); }
+                        let mut sb = mk().step_by(2);
+                        if sb.next().map(|o| item(&o)) != want(j) || sb.next().map(|o| item(&o)) != want(j + 2) { return format!("step_by:{}", j); }
+                    }
+                    "ok".to_string()
+                });
+                write!(s, " x_adapt={}", adapt).unwrap();
             }
             // database encoding (C20)
             let ab = <bsl::TxOuts as RedbValue>::as_bytes(x);
